@@ -15,6 +15,7 @@ CONSTANTS
   Callers = {"pred"}
   SelMode = "some"
   WithNA = TRUE
+  NAInExpected = FALSE
   ExtraSet <- EX_none
   Export = TRUE
   SampleMod = 16
